@@ -163,6 +163,8 @@ class Plugin(BasePlugin):
                 if isinstance(w, list) and all(isinstance(x, (dict if k == 'docs' else list)) for x in w):
                     if k == 'docs' and not all('_id' in d for d in w):
                         continue
+                    if k == 'docs' and len({repr(common.to_jsonable(d['_id'])) for d in w}) != len(w):
+                        continue       # two documents with one _id: not a collection
                     if k == 'sort' and not all(len(x) == 2 and isinstance(x[0], str) and x[1] in (1, -1) for x in w):
                         continue
                     if k == 'meths' and w != case[k] and not all(
